@@ -25,7 +25,7 @@ type c18Case struct {
 	Src      []int    `json:"src,omitempty"`
 	EOFW     bool     `json:"eofwith,omitempty"`
 	FailAt   int      `json:"failat,omitempty"`
-	FailKind int      `json:"failkind,omitempty"` // 0 plain error, 1 wraps io.EOF, 2 wraps io.ErrUnexpectedEOF
+	FailKind int      `json:"failkind,omitempty"` // 0 plain error, 1 wraps io.EOF, 2 wraps io.ErrUnexpectedEOF, 3 io.ErrUnexpectedEOF itself, 4 / 5 as 0 / 2 but returned together with data
 	Prev     *c18Prev `json:"prev,omitempty"`     // an earlier stream read (partly) through the same object before Reset
 	Zero     string   `json:"zero,omitempty"`     // block | content: the data is patched so that the XXH32 of its first (stored) block / of the whole content is 0
 }
@@ -42,18 +42,23 @@ func failErr(kind int) error {
 	switch kind {
 	case 1:
 		return inst.ErrInjectedWrapsEOF
-	case 2:
+	case 2, 5:
 		return inst.ErrInjectedWrapsUnexpectedEOF
+	case 3:
+		return io.ErrUnexpectedEOF // the sentinel itself: what a truncated gzip / http body / lz4 stream returns
 	}
-	return nil
+	return nil // 0, 4: the plain injected error
 }
+
+// failWithData: kinds 4 and 5 return the error together with the data of the failing call.
+func failWithData(kind int) bool { return kind == 4 || kind == 5 }
 
 func runC18(c c18Case, rec *stat.Rec) *stat.Failure {
 	data := c.Data.Build()
 	if c.Zero != "" && zeroPatch(data, c.Zero, c.Opts.blockSize()) {
 		rec.Class("input/xxh32-of-" + c.Zero + "-is-zero")
 	}
-	src := &inst.Source{Data: data, Chunks: c.Src, EOFWith: c.EOFW, FailAt: c.FailAt, FailWith: failErr(c.FailKind)}
+	src := &inst.Source{Data: data, Chunks: c.Src, EOFWith: c.EOFW, FailAt: c.FailAt, FailWith: failErr(c.FailKind), FailData: failWithData(c.FailKind)}
 	rc := &inst.ReadCloser{Reader: src}
 	cr := lz4.NewCompressingReader(rc)
 	if c.Prev != nil {
@@ -145,10 +150,15 @@ func runC18(c c18Case, rec *stat.Rec) *stat.Failure {
 	}
 	desc := fmt.Sprintf("%s, %d bytes in, head %v sizes %v, source chunks %v", c.Opts, len(data), c.Head, c.Sizes, c.Src)
 	if c.FailAt > 0 && src.Failed > 0 {
-		if !errors.Is(final, inst.ErrInjected) {
-			return stat.Failf("C18/source-error-not-passed-through/"+errClass(final), "%s: source failed at call %d, Read returned %v", desc, c.FailAt, final)
+		want := error(inst.ErrInjected)
+		if c.FailKind == 3 {
+			want = io.ErrUnexpectedEOF
+		}
+		if !errors.Is(final, want) {
+			return stat.Failf("C18/source-error-not-passed-through/"+errClass(final)+fmt.Sprintf("/failkind=%d", c.FailKind), "%s: source failed at call %d (kind %d: %v, with data: %v), Read returned %v", desc, c.FailAt, c.FailKind, want, failWithData(c.FailKind), final)
 		}
 		rec.Class("source-error-passed-through")
+		rec.Class(fmt.Sprintf("source-error-kind-%d-passed-through", c.FailKind))
 		if c.FailKind != 0 {
 			rec.Class("source-error-wrapping-EOF-passed-through")
 		}
@@ -263,7 +273,7 @@ func drawC18(t *rapid.T) c18Case {
 	}
 	if rapid.IntRange(0, 7).Draw(t, "fail?") == 0 {
 		c.FailAt = rapid.IntRange(1, 12).Draw(t, "failat")
-		c.FailKind = rapid.IntRange(0, 2).Draw(t, "failkind")
+		c.FailKind = rapid.IntRange(0, 5).Draw(t, "failkind")
 	}
 	if rapid.IntRange(0, 4).Draw(t, "prev?") == 0 {
 		p := &c18Prev{Data: drawFrameData(t, rapid.SampledFrom([]int{0, 10, 70000, 200000}).Draw(t, "prevn")),
@@ -327,6 +337,6 @@ func TestC18ZeroChecksums(t *testing.T) {
 func TestC18(t *testing.T) {
 	rec := stat.For("C18")
 	rec.SetRule(c18Rule)
-	rec.Require("nontrivial", "sizes/aimed-at-field-boundaries", "reuse/reset-after-a-source-failure", "source-error-wrapping-EOF-passed-through", "sizes/below-header-size", "source-error-passed-through", "source/fragmented", "input/empty", "input/k*bs", "input/bs")
+	rec.Require("nontrivial", "sizes/aimed-at-field-boundaries", "reuse/reset-after-a-source-failure", "source-error-wrapping-EOF-passed-through", "source-error-kind-3-passed-through", "source-error-kind-4-passed-through", "sizes/below-header-size", "source-error-passed-through", "source/fragmented", "input/empty", "input/k*bs", "input/bs")
 	checkProp(t, "C18", "C18/read", pick(6000, 150000), drawC18, runC18)
 }
